@@ -100,6 +100,11 @@ func (c16) Generate(seed uint64, tier string, index int) any {
 			if g.R.Intn(3) == 0 {
 				l = int64(1 + g.R.Intn(20000))
 			}
+			if g.R.Intn(10) == 0 && sz > 100000 {
+				// an unmatched run longer than the sender's literal flush threshold
+				// (block length + 256 KiB): the search must pick up again after it
+				l = int64(270000 + g.R.Intn(400000))
+			}
 			switch g.R.Intn(8) {
 			case 0, 1:
 				f.Edits = append(f.Edits, fstree.Edit{Kind: "ins", Off: off, Len: l, Seed: g.R.Uint64() >> 1})
